@@ -58,6 +58,7 @@ def sub_scalar(cls: str):
         c.requires(S.deep_range(v), "float-repr")
         c.paths()
         c.raises("SubstitutionError", props=("C12", "C04", "C05"))
+        c.reproducible()      # C17
         c.raises_when("SubstitutionError", z3.Not(S.conforms_def(ct, cls, Sx, v)))
         c.returns(cls)
         upd = {} if cls == "NoneSchema" else {"value": v}
@@ -70,7 +71,7 @@ def sub_scalar(cls: str):
 
 
 for _m, _cls in SCALARS:
-    contract(SUB, f"Substitutor.{_m}", props=("C04", "C05", "C12", "C07"), group="substitutor")(sub_scalar(_cls))
+    contract(SUB, f"Substitutor.{_m}", props=("C04", "C05", "C12", "C07", "C17"), group="substitutor")(sub_scalar(_cls))
 
 
 # ----------------------------------------------------------------------------- lemmas over the scalar contracts
@@ -258,7 +259,7 @@ def _c14(lc):
 from .custom import subraises, subres  # noqa: E402
 
 
-@contract(SUB, "Substitutor.visit_type_alias", props=("C04", "C05", "C12", "C07"), group="substitutor")
+@contract(SUB, "Substitutor.visit_type_alias", props=("C04", "C05", "C12", "C07", "C17"), group="substitutor")
 def _sub_alias(c):
     ct = c.ct
     c.built_self("Substitutor")
@@ -271,6 +272,7 @@ def _sub_alias(c):
     c.requires(M.has(S.reg_of(Sx), S.S_("type")), "alias-has-a-type")      # SchemaFacade.alias always sets it
     c.paths()
     c.raises("SubstitutionError", props=("C12",))
+    c.reproducible()      # C17: the schema built does not depend on the interpreter's hash seed
     c.raises_when("SubstitutionError", subraises(t, v, kw))
     c.returns("TypeAliasSchema")
     c.ensures("registry", lambda r, post: S.registry_is(ct, "TypeAliasSchema", r, Sx, {"type": subres(t, v, kw)}),
@@ -279,7 +281,7 @@ def _sub_alias(c):
     c.meta = {"cls": "TypeAliasSchema"}
 
 
-@contract(SUB, "Substitutor._from_native", props=("C12", "C04", "C07"), group="substitutor")
+@contract(SUB, "Substitutor._from_native", props=("C12", "C04", "C07", "C17"), group="substitutor")
 def _sub_from_native(c):
     """the wrapper turns every refusal of from_native into SubstitutionError; otherwise from_native's result"""
     ct = c.ct
@@ -287,6 +289,7 @@ def _sub_from_native(c):
     x = c.sym("value")
     c.requires(S.deep_range(x), "float-repr")
     c.raises("SubstitutionError", props=("C12",))
+    c.reproducible()      # C17: the schema built does not depend on the interpreter's hash seed
     c.returns(None)
     w = z3.Const("sfw", Obj)
     c.ensures("is-schema", lambda r, post: z3.And(S.is_schema(ct, r), S.wf(r), S.reach(r)), ("C12", "C04"))
@@ -299,7 +302,7 @@ fn_raises = z3.Function("fn_raises", Obj, M.B)      # Substitutor._from_native(x
 fn_res = z3.Function("fn_res", Obj, Obj)            # ... otherwise its result
 
 
-@contract(SUB, "Substitutor.visit_any", props=("C04", "C05", "C12", "C07"), group="substitutor")
+@contract(SUB, "Substitutor.visit_any", props=("C04", "C05", "C12", "C07", "C17"), group="substitutor")
 def _sub_any(c):
     """raises iff the relaxed validation fails, or types are declared and every alternative refuses; the result's
     `types` are, in order, the substitutions of the alternatives that do not refuse (from_native(v) when undeclared)"""
@@ -317,6 +320,7 @@ def _sub_any(c):
     all_refuse = z3.ForAll([j], z3.Implies(z3.And(0 <= j, j < n), subraises(M.lat(T_, j), v, kw)), patterns=[M.lat(T_, j)])
     c.paths()
     c.raises("SubstitutionError", props=("C12",))
+    c.reproducible()      # C17: the schema built does not depend on the interpreter's hash seed
     c.ensures_exc("SubstitutionError", "only-when-invalid-or-nothing-fits",
                   lambda e, post: z3.Or(z3.Not(V.rvalid(Sx, v)), z3.And(T_ != M.NilV, all_refuse), T_ == M.NilV), ("C12",))
     c.returns("AnySchema")
@@ -382,7 +386,7 @@ def _native_axioms(ct) -> List[Any]:
 _REG.axiom_fns.append(_native_axioms)
 
 
-@contract(SUB, "Substitutor._substitute_elements", props=("C04", "C05", "C12", "C07"), group="substitutor")
+@contract(SUB, "Substitutor._substitute_elements", props=("C04", "C05", "C12", "C07", "C17"), group="substitutor")
 def _sub_elements(c):
     """positional contract: the result has one schema per element of `value`; inside the window
     [start, start + len(elements)) it is the member substitution elements[q] % value[start + q], outside it is
@@ -402,6 +406,7 @@ def _sub_elements(c):
     s0, ne, n = M.ival(st0), M.llen(E), M.llen(v)
     c.paths()
     c.raises("SubstitutionError", props=("C12",))
+    c.reproducible()      # C17: the schema built does not depend on the interpreter's hash seed
     c.returns("list")
 
     def post(r, post_):
@@ -489,7 +494,7 @@ def dict_keyed_entry(ct, K: Any, v: Any, kw: Any, x: Any, pair: Any) -> Any:
                  _pair(ct, pair, lambda m: m == m0, M.lat(old, 1)))
 
 
-@contract(SUB, "Substitutor.visit_dict", props=("C04", "C05", "C12", "C07"), group="substitutor")
+@contract(SUB, "Substitutor.visit_dict", props=("C04", "C05", "C12", "C07", "C17"), group="substitutor")
 def _sub_dict(c):
     ct = c.ct
     c.built_self("Substitutor")
@@ -505,6 +510,7 @@ def _sub_dict(c):
     untyped = z3.Or(K == M.NilV, z3.And(M.klen(K) == 1, M.has(K, M.EllV)))
     c.paths()
     c.raises("SubstitutionError", props=("C12",))
+    c.reproducible()      # C17: the schema built does not depend on the interpreter's hash seed
     c.returns("DictSchema")
     c.ensures("same-class", lambda r, post: z3.And(S.is_schema(ct, r), M.rcls(r) == M.rcls(Sx)), ("C12", "C07"))
 
@@ -602,7 +608,7 @@ def window_positions(ct, R: Any, v: Any, E: Any, off: Any, ne: Any, s0: Any, kw:
         native_of(M.lat(v, j), M.lat(R, j)))), patterns=[M.lat(R, j)]))
 
 
-@contract(SUB, "Substitutor.visit_list", props=("C04", "C05", "C12", "C07"), group="substitutor")
+@contract(SUB, "Substitutor.visit_list", props=("C04", "C05", "C12", "C07", "C17"), group="substitutor")
 def _sub_list(c):
     ct = c.ct
     c.built_self("Substitutor")
@@ -618,6 +624,7 @@ def _sub_list(c):
     s0 = z3.Int("sls0")
     c.paths()
     c.raises("SubstitutionError", props=("C12",))
+    c.reproducible()      # C17: the schema built does not depend on the interpreter's hash seed
     c.returns("ListSchema")
     c.ensures("same-class", lambda r, post: z3.And(S.is_schema(ct, r), M.rcls(r) == M.rcls(Sx)), ("C12", "C07"))
     # (when the conversion of a member fails is not characterised, so refusals are pinned down only where no member is
